@@ -751,6 +751,43 @@ def fold_bin(op, l, r):
     return ('bin', op, l, r)
 
 
+_NOFOLD = object()
+
+
+def fold_constant(e, globals_, depth=0):
+    """value of a module-level constant expression (numbers, strings, tuples, len, arithmetic, other constants)"""
+    if depth > 8:
+        return _NOFOLD
+    rec = lambda x: fold_constant(x, globals_, depth + 1)
+    if isinstance(e, ast.Constant) and isinstance(e.value, (int, float, str, bool, type(None))):
+        return e.value
+    if isinstance(e, ast.Name) and e.id in globals_ and globals_[e.id] is not e:
+        return rec(globals_[e.id])
+    if isinstance(e, ast.Call) and isinstance(e.func, ast.Name) and e.func.id in ('len', 'int', 'str') and len(e.args) == 1 \
+            and not e.keywords and e.func.id not in globals_:
+        a = rec(e.args[0])
+        if a is _NOFOLD:
+            return _NOFOLD
+        try:
+            return {'len': len, 'int': int, 'str': str}[e.func.id](a)
+        except Exception:
+            return _NOFOLD
+    if isinstance(e, ast.BinOp) and type(e.op) in _BINOPS:
+        a, b = rec(e.left), rec(e.right)
+        if a is _NOFOLD or b is _NOFOLD or isinstance(a, str) != isinstance(b, str):
+            return _NOFOLD
+        import operator
+        ops = {'+': operator.add, '-': operator.sub, '*': operator.mul, '//': operator.floordiv, '%': operator.mod, '**': operator.pow}
+        op = _BINOPS[type(e.op)]
+        if op not in ops or (op == '**' and (not isinstance(b, int) or abs(b) > 64)):
+            return _NOFOLD
+        try:
+            return ops[op](a, b)
+        except Exception:
+            return _NOFOLD
+    return _NOFOLD
+
+
 class TermBuilder:
     MAX_DEPTH = 40
 
@@ -768,9 +805,13 @@ class TermBuilder:
             return self.bound[name]
         if name not in f.locals:
             q = f.module.resolve_global(name)
-            # module-level constant strings/numbers are folded
+            # module-level constant strings/numbers are folded (also simple constant expressions: len("ACGT"), 4 ** 2, A + B)
             if name in f.module.globals and isinstance(f.module.globals[name], ast.Constant):
                 return const(f.module.globals[name].value)
+            if name in f.module.globals:
+                v = fold_constant(f.module.globals[name], f.module.globals)
+                if v is not _NOFOLD:
+                    return const(v)
             return ('g', q)
         ver = f.reaching(self.nid, name, self.out)
         key = (name, ver)
